@@ -209,3 +209,7 @@ def replay(case):
     apply_ops(_C(), gd, case.get("S", []), acyclic, alias=True)
     if "graph2" in case:
         apply_ops(_C(), case["graph2"], case.get("S", []), acyclic)
+
+
+def install_for_suite():
+    mon_graph.install()
